@@ -9,7 +9,7 @@ any sequence of create / open.
 namespace Ledger.E2e
 open Ledger.Base Ledger.Core Ledger.Ctrl
 
-theorem stepM_other (strict : Bool) (m : MState) (l l' : String) (op : Op) (f : Option Fault) (cf : Bool) (h : l' ≠ l) :
+theorem stepM_other (strict : Bool) (m : MState) (l l' : String) (op : Op) (f : Faults) (cf : Bool) (h : l' ≠ l) :
     (stepM strict m l op f cf).1.ledgers l' = m.ledgers l' := by
   simp [stepM, h]
 
@@ -31,7 +31,7 @@ theorem runM_project (strict : Bool) (m : MState) (h : List (String × Op)) (l :
       rw [stepM_self]
     · have hne : l ≠ l' := fun h => hl h.symm
       simp only [opsOf, List.filterMap_cons, hl, ↓reduceIte]
-      rw [stepM_other strict m l' l op none false hne]
+      rw [stepM_other strict m l' l op [] false hne]
 
 /-! ### the alone-in-bucket hint -/
 
